@@ -15,6 +15,7 @@ EXPLANATION = (
     "resolution, the double-rounding clause for 64-bit fields (numeric facts, not shape facts)."
     ' GEN-ENC / ENC-MASK: when the returned bytes are not <int>.to_bytes(..) of OR-ed masked pieces (sums, modulo, struct.pack, joined parts), the return term is read as a vector of bits, each a constant 0 or bit k of one producer; maximal runs give (producer, width, position) rows that are checked like the OR-pieces.'
     ' Fifth round: [ENC-STATE] every use of self.<attr> in the encoder is classified (read / write / not visible): bound in __init__ and only read is configuration, written and read after construction is state between messages (violation), anything else is undecided. When the encode_number residual is not of the piecewise form it is decided on points (tick counts around every boundary, None): ENC-RANGE / SENT-AGREE / SIGN-AGREE then rest on sampled points. An encode_time call site that was not read and a payload assembled by a loop the guard extractor only approximates give no verdict.'
+    ' Seventh round: the payload of a fast PGN only reaches the wire through the segmenter, so the [FP-COUNT] sweep of C03 (frames carry payload[0..L-1] once, in order) is run here too on the lengths around the frame capacities.'
 )
 ASSUMPTIONS = ["CPython ast parser", "canboat.json is the oracle", "sym.py partial evaluation (constant folding, helper inlining)",
                "Python int/round semantics: int() truncates, round() rounds to nearest"]
@@ -37,5 +38,10 @@ def run(chk, program, tier):
     H.enc_range(chk, program)
     E.lookup_inv(chk, program)
     E.enc_state(chk, program)
+    # the payload of a fast PGN reaches the wire in frames: the frames together carry it once, in order (C03's sweep on the lengths around the frame capacities)
+    chk.rule('FP-COUNT', 'the frames of a fast message carry the payload once, in order')
+    chk.rule('FP-LEN', 'fast-packet frames have 1..8 bytes'); chk.rule('FP-HDR', 'frame header bytes'); chk.rule('FP-SEQ', 'sequence counter')
+    from . import c03
+    c03.segmenter_sweep(chk, program, sorted(set(list(range(0, 16)) + [20, 21, 27, 28, 34, 35, 216, 217, 222, 223])), (0,))
     chk.floor('encodable_definitions', chk.units.get('encodable_definitions', 0), 255)
     chk.floor('encoder_rows', chk.units.get('encoder_rows', 0), 1700)
